@@ -53,9 +53,9 @@ Three streams, all on the REAL navis imported in-process:
 Defects found by this check and since fixed in navis (known_findings/C03.json, status "fixed"; every one of them is an
 ordinary VIOLATION again if it returns): `nl | n` appended to the receiver's list; `copy()` shared the tag *lists* between
 input and result; `Dotprops.to_skeleton` shared its connector table with the result; `find_main_branchpoint` left a
-`betweenness` column in its input.  Open (printed as KNOWN-FINDING): `split_into_fragments(reroot_soma=True)` and
-`persistence_points(remove_cbf=True)` reroot their input; `average_skeletons` leaves a `tree` attribute on every input neuron;
-`copy()` shares the arrays inside the cached segment lists."""
+`betweenness` column in its input; `split_into_fragments(reroot_soma=True)` and `persistence_points(remove_cbf=True)` rerooted
+their input; `average_skeletons` left a `tree` attribute on every input neuron; `copy()` shared the arrays inside the cached
+segment lists."""
 import inspect, importlib, itertools, os, random as _random, tempfile, warnings, copy as _copy, math
 from pathlib import Path
 
@@ -1163,7 +1163,7 @@ def shared_containers(x, res):
     return out
 
 
-SEG_SIG = 'copy() / cached _segments and _small_segments copied shallowly / result.segments[i][j] = v changes input.segments'
+SEG_SIG = None      # the shared segment arrays are repaired in navis (TreeNeuron.copy copies them): an ordinary violation now
 
 
 def shared_segment_arrays(x, res):
@@ -1197,14 +1197,9 @@ def case_tag(case):
 
 
 def known_signature(name, kwargs, d, x=None):
-    """signature of an OPEN known finding this input-modification matches (None = an ordinary violation)"""
-    dd = set(d)
-    if name == 'split_into_fragments' and kwargs.get('reroot_soma') is True:
-        return 'split_into_fragments(reroot_soma=True) / input rerooted in place / soma is not the root'
-    if name == 'persistence_points' and kwargs.get('remove_cbf') is True:
-        return 'persistence_points(remove_cbf=True) / input rerooted in place / soma is not the root'
-    if name == 'average_skeletons' and dd and all(k.endswith('attr.tree') for k in dd):
-        return 'average_skeletons / `tree` attribute (cKDTree) left on every input neuron'
+    """signature of an OPEN known finding this input-modification matches (None = an ordinary violation).
+    The three findings that used to be matched here (split_into_fragments / persistence_points rerooting their input,
+    average_skeletons leaving a `tree` attribute) are repaired in navis: every input modification is an ordinary violation."""
     return None
 
 
